@@ -503,9 +503,87 @@ fn chain_updates(report: &Report, cli: &Cli) {
     }
 }
 
+/// Every `TransactionSigner` the library offers, on accounts whose credential and key indices are
+/// dense, sparse, shifted and at the top of the range: a signer that holds at least the
+/// thresholds signs so that the transaction verifies, supplies exactly `num_keys()` signatures,
+/// and `send::*` declares the energy for that many signatures.
+fn signers(report: &Report, cli: &Cli) {
+    use concordium_base::id::types::{AccountKeys, CredentialData};
+    use concordium_base::transactions::{send, ExactSizeTransactionSigner, TransactionSigner};
+    let cred_sets: Vec<Vec<u8>> = vec![vec![0], vec![5], vec![255], vec![0, 1], vec![0, 2], vec![1, 2], vec![254, 255], vec![0, 1, 2], vec![0, 7, 255]];
+    let key_sets: Vec<Vec<u8>> = vec![vec![0], vec![3], vec![0, 1], vec![0, 3], vec![254, 255], vec![1, 2, 7]];
+    let mut cases = vec![];
+    for cs in &cred_sets {
+        for at in 1..=cs.len() as u8 {
+            for (ki, ks) in key_sets.iter().enumerate() {
+                for kt in 1..=ks.len() as u8 {
+                    // the other credentials take the next key set with threshold 1
+                    cases.push((cs.clone(), at, ki, kt));
+                }
+            }
+        }
+    }
+    report.set_extra("signer_structures", json!(cases.len()));
+    cases.par_iter().for_each(|(cs, at, ki, kt)| {
+        let wit = json!({"signer": {"credentials": cs, "account_threshold": at, "keys_of_first_credential": key_sets[*ki], "key_threshold": kt}});
+        case(report, wit, || {
+            let mut keys = BTreeMap::new();
+            for (n, c) in cs.iter().enumerate() {
+                let (kset, thr) = if n == 0 { (&key_sets[*ki], *kt) } else { (&key_sets[(*ki + n) % key_sets.len()], 1u8) };
+                let mut m = BTreeMap::new();
+                for k in kset {
+                    m.insert(KeyIndex(*k), KeyPair::generate(&mut rng(cli.seed, 6900 + *c as u64 * 256 + *k as u64)));
+                }
+                keys.insert(CredentialIndex { index: *c }, CredentialData { keys: m, threshold: SignatureThreshold::try_from(thr).unwrap() });
+            }
+            let explicit: BTreeMap<CredentialIndex, BTreeMap<KeyIndex, KeyPair>> = keys.iter().map(|(c, d)| (*c, d.keys.clone())).collect();
+            let ak = AccountKeys { keys, threshold: AccountThreshold::try_from(*at).unwrap() };
+            let acc = AccountAccessStructure::from(&ak);
+            let check = |name: &str, n_keys: u32, tx: AccountTransaction<EncodedPayload>| -> Result<(), (String, serde_json::Value)> {
+                report.trace(1);
+                if !tx.verify_transaction_signature(&acc) {
+                    return fail("sufficiently-signed-transaction-rejected", json!({"signer": name}));
+                }
+                let supplied: usize = tx.signature.signatures.values().map(|m| m.len()).sum();
+                if supplied as u32 != n_keys {
+                    return fail("signer-supplies-other-number-of-signatures-than-it-declares", json!({"signer": name, "declared": n_keys, "supplied": supplied}));
+                }
+                let want_energy = cost::B * (60 + u32::from(tx.header.payload_size) as u64) + cost::A * n_keys as u64 + 300;
+                if u64::from(tx.header.energy_amount) != want_energy {
+                    return fail("energy-differs-from-documented-formula", json!({"signer": name, "expected": want_energy, "observed": u64::from(tx.header.energy_amount)}));
+                }
+                Ok(())
+            };
+            let (s, n, e) = (addr(1), Nonce { nonce: 1 }, TransactionTime { seconds: 9 });
+            let t = |tx: AccountTransaction<EncodedPayload>| tx;
+            check("AccountKeys", ak.num_keys(), t(send::transfer(&ak, s, n, e, addr(2), Amount::from_micro_ccd(3))))?;
+            let r = &ak;
+            check("&AccountKeys", r.num_keys(), t(send::transfer(&r, s, n, e, addr(2), Amount::from_micro_ccd(3))))?;
+            check("explicit key map", explicit.num_keys(), t(send::transfer(&explicit, s, n, e, addr(2), Amount::from_micro_ccd(3))))?;
+            let arc = std::sync::Arc::new(explicit.clone());
+            check("Arc<key map>", arc.num_keys(), t(send::transfer(&arc, s, n, e, addr(2), Amount::from_micro_ccd(3))))?;
+            // pre-transaction signed through the plain TransactionSigner interface
+            let pre = construct::transfer(ak.num_keys(), s, n, e, addr(2), Amount::from_micro_ccd(3));
+            let tx: AccountTransaction<EncodedPayload> = pre.clone().sign(&ak);
+            check("construct + sign(AccountKeys)", ak.num_keys(), tx)?;
+            // and the sponsor side of a sponsored transaction is signed the same way
+            let h = ak.sign_transaction_hash(&pre.hash_to_sign);
+            let sup: usize = h.signatures.values().map(|m| m.len()).sum();
+            if sup as u32 != ak.num_keys() {
+                return fail("signer-supplies-other-number-of-signatures-than-it-declares", json!({"signer": "sign_transaction_hash", "declared": ak.num_keys(), "supplied": sup}));
+            }
+            if !verify_signature_transaction_sign_hash(&acc, &pre.hash_to_sign, &h) {
+                return fail("sufficiently-signed-transaction-rejected", json!({"signer": "sign_transaction_hash"}));
+            }
+            Ok(())
+        });
+    });
+}
+
 pub fn run(cli: &Cli) -> ! {
     let report = Report::new(cli);
     policy_predicate(&report, cli);
+    signers(&report, cli);
     digest_binding_and_formulas(&report, cli);
     chain_updates(&report, cli);
     let n = report.evaluations.load(std::sync::atomic::Ordering::Relaxed);
